@@ -54,7 +54,14 @@ def height2code_kernel(ctx, rule='C18-R2'):
     ctx.check(len(nan_parts) == 1 and nan_parts[0][1] == ('str', ''), rule, f.qname, f.node.name, f.loc(),
               f'height2code(NaN) is {nan_parts[0][1] if nan_parts else None}, expected the empty string',
               instance="height2code(NaN) == ''")
-    parts = k.ev(s.ret, (F(0), True, F(100000), False))
+    try:
+        parts = k.ev(s.ret, (F(0), True, F(100000), False))
+    except K.NestedRounding as err:
+        ctx.violation(rule, f.qname, f.node.name, f.loc(),
+                      f'the height goes through two roundings ({err.why}): the coded value is no longer the floor of '
+                      'height/100 - rounding first can lift a base onto the next boundary and code it upward',
+                      instance='height2code: a single floor, never a rounding first')
+        return
     desc = K.describe(parts)
     ctx.tables['height2code_pieces'] = desc
     ctx.sample({'height2code as a piecewise function of the height on [0, 1e5)': desc})
@@ -119,7 +126,13 @@ def perc2okta_kernel(ctx, rule='C18-R3'):
         first_other = min((e.seq for e in s.events if e.kind in ('store', 'return') and not e.ctx), default=1 << 60)
         ctx.check(r.seq < first_other, rule, f.qname, r.node, r.loc(), 'the range check is not the first thing done',
                   instance='range check first')
-    parts = k.ev(s.ret, (F(0), True, F(100), True))
+    try:
+        parts = k.ev(s.ret, (F(0), True, F(100), True))
+    except K.NestedRounding as err:
+        ctx.violation(rule, f.qname, f.node.name, f.loc(),
+                      f'the percentage goes through two roundings ({err.why}): bin edges move',
+                      instance='perc2okta: one rounding per value')
+        return
     desc = K.describe(parts)
     ctx.tables['perc2okta_pieces'] = desc
     ctx.sample({'perc2okta as a piecewise function of the percentage on [0, 100]': desc})
